@@ -20,6 +20,16 @@ K_PROPS = {
                     "parts (1) arithmetic kernels and (2) single operations with symbolic arguments on the FRESH heap are solver verdicts over all values; part (3) executes LISTED concrete histories with a symbolic fill byte / probe index and is bounded execution of those histories only"],
                 outside=["every heap state other than the fresh one as the start of a symbolic operation (two symbolic-size operations in a row exceed 15-20 min / 30-40 GB: not attempted)",
                          "histories not in the template list; tree-bin shapes beyond those the templates build; multi-threaded use through the global allocator; reallocation of large (mmapped) blocks"]),
+    "C05": dict(assumptions=COMMON + KERNEL_ASSUMPTIONS + [
+                    "tiny-std is compiled from /repo with features alloc, threaded, verif-hooks (hook commit 253aae5): thread::spawn is compiled without `symbols`, the thread panic handler is an ordinary function, get_tls_ptr reads a stand-in for the TLS register, and the panic handler's final munmap + exit are issued through the `sc` crate instead of inline asm",
+                    "Kani has no threads: the schedule is a symbolic choice among the orders that do not commute (which of the two compare-exchanges on the sync flag comes first; whether the kernel's clear-child-tid write + wake lands before the parent's next step or while it is parked).  The reduction argument (the child's steps after its compare-exchange touch only its TLS block and its stack, the parent's join before parking only loads the exit futex) is in DESIGN.md section 14 and is part of the claim",
+                    "the `__clone` global_asm trampoline is replaced by a model written from its comments: clone(flags, stack, 0, child_tid, tls) through the symbolic kernel; the child calls start_fn(args), then munmap(stack_unmap_ptr, stack_sz), then exits; the kernel then writes 0 to the clear_child_tid address (if still set) and wakes it",
+                    "FUTEX_WAIT returns EAGAIN on a value mismatch, parks otherwise; a parked caller is resumed by the thread's exit, or spuriously (0 or EINTR) where stated; a park that nothing can ever end is reported as 'never returns'",
+                    "heap: alloc::alloc::alloc / dealloc_nonnull are wrapped (same allocation by Kani's allocator model plus exact bookkeeping by address); use after free and double free are CBMC pointer checks; the 2 MiB stack mapping is represented by its top 256 bytes (the encoded code touches only StartArgs in the top 8 bytes)",
+                    "a panicking closure is modelled as a call of the real panic handler tiny_std::thread::on_panic from inside the closure (the PanicInfo argument is never inspected on the thread branch)"],
+                outside=["real concurrency: weak-memory effects, preemption inside the child's private steps, more than one thread alive at a time, thousands of threads",
+                         "the assembly itself (register shuffling in __clone, the aarch64 variants), the main thread's TLS set-up in start.rs, allocation failure (the allocator model never returns null)",
+                         "result types other than u32 (quick) and (), u128, a 64-byte-aligned struct (thorough); closures that capture droppable state"]),
     "C14": dict(assumptions=COMMON + KERNEL_ASSUMPTIONS + [
                     "model file system inside the kernel hook: (a) the set of existing component prefixes of the requested path, mkdir answers EEXIST / ENOENT (parent missing) / 0 as Linux does and flags any mkdir of a string that is not a component prefix; (b) source/destination lengths and a 'destination prefix equals source' counter, copy_file_range moves any 1..=remaining bytes; (d) getdents64 fills the caller's window with linux_dirent64 records",
                     "path shapes for create_dir_all are a concrete table (listed in the obligations); the solver's quantifier is the prior state of the tree",
@@ -145,6 +155,8 @@ def dispatch(prop, tier, seed, only, replay_path, jobs):
         from . import mcheck
         # engine M needs z3: re-exec under the tooling interpreter if necessary
         return mcheck.check(prop, tier, seed, jobs)
+    if prop == "C06" and "C06" not in K_PROPS:
+        K_PROPS["C06"] = K_PROPS["C05"]
     if prop in K_PROPS:
         cfg = dict(K_PROPS[prop])
         if prop == "C09":
